@@ -50,7 +50,7 @@ CHECKS = {
   technique="Lean 4 proof (list algebra on the action queue) + probe-based correspondence"),
  "C06": dict(
   category="proof",
-  text="Lean 4 theorems: play_clock (a play advances the clock by exactly the elapse time of its own action; relayed callbacks never do), per_command (ELAPSE t: +t; CAST: + first positive delay of its use, 0 if none; RESOLVE: + pending delay of the named skill; USE/KEYDOWNSTOP/debug: +0), clock_is_sum (every recorded clock is the previous one plus the elapse time of the action; the shown clock is the sum of all elapse times), clock_monotone, firstDelay_nonneg — for every router satisfying hRouter (only the timer writes the clock); hRouter is itself DERIVED (C06_Router) for the modelled router from the dispatcher frame theorem of C08 plus the static fact that no component is bound to global.time, and is observed on every router call of real runs of all jobs; per component class X_elapsed_carries_time (part files): exactly one 'elapsed' event with exactly the elapse time; together with the per-command deltas and the times carried by 'elapsed' notifications.",
+  text="Lean 4 theorems: play_clock (a play advances the clock by exactly the elapse time of its own action; relayed callbacks never do), per_command (ELAPSE t: +t; CAST: + first positive delay of its use, 0 if none; RESOLVE: + pending delay of the named skill; USE/KEYDOWNSTOP/debug: +0), refused_command_leaves_the_clock and clock_is_sum_with_refusals (part file C06_Refused: the same for sessions in which commands are refused with an exception and the caller goes on), clock_is_sum (every recorded clock is the previous one plus the elapse time of the action; the shown clock is the sum of all elapse times), clock_monotone, firstDelay_nonneg — for every router satisfying hRouter (only the timer writes the clock); hRouter is itself DERIVED (C06_Router) for the modelled router from the dispatcher frame theorem of C08 plus the static fact that no component is bound to global.time, and is observed on every router call of real runs of all jobs; per component class X_elapsed_carries_time (part files): exactly one 'elapsed' event with exactly the elapse time; together with the per-command deltas and the times carried by 'elapsed' notifications.",
   design_ref="DESIGN.md §4 C06",
   note="Trusted: Lean kernel + standard axioms; hand model tied by C01/C03 replays + router-call observation; hRouter hypothesis (observed, plus static check of bound addresses); on-grid float addition exact.",
   technique="Lean 4 proof (invariant over commands) + router-call observation"),
